@@ -1018,6 +1018,40 @@ class Engine:
         else:
             self.exec_block(s.orelse, fr)
 
+    def st_Match(self, s, fr):
+        """match on constants / or-patterns / capture-all only (what an if/elif chain on constants turns into)"""
+        subj = self.eval(s.subject, fr)
+
+        def pat_cond(p):
+            if isinstance(p, ast.MatchValue):
+                return self.compare(subj, ast.Eq(), self.eval(p.value, fr))
+            if isinstance(p, ast.MatchSingleton):
+                return self.compare(subj, ast.Is(), lift(p.value))
+            if isinstance(p, ast.MatchOr):
+                return z3.Or(*[B(pat_cond(q)) for q in p.patterns])
+            if isinstance(p, ast.MatchAs) and p.pattern is None:
+                if p.name is not None:
+                    fr.locals[p.name] = subj
+                return z3.BoolVal(True)
+            raise Unsupported('match pattern %s' % type(p).__name__)
+        for case in s.cases:
+            c = B(pat_cond(case.pattern))
+            if case.guard is not None:
+                if not self.branch(c):
+                    continue
+                if not self.branch(self.truth(self.eval(case.guard, fr))):
+                    continue
+                self.exec_block(case.body, fr)
+                return
+            if self.branch(c):
+                self.exec_block(case.body, fr)
+                return
+
+    def ex_NamedExpr(self, e, fr):
+        v = self.eval(e.value, fr)
+        self.assign(e.target, v, fr)
+        return v
+
     def st_Assert(self, s, fr):
         if not self.debug_flag:
             return
